@@ -135,4 +135,103 @@ theorem posRaw_encode (G : Geo α) (cs : RPath α) : posRaw G (encode C cs).reve
   | nil => rfl
   | cons c cs => rw [encode_reverse_cons]; cases c <;> simp [encodeCmd, posRaw, pos, Cmd.endp]
 
+theorem decodeFlag_sound {f : α} {l s : Bool} (h : decodeFlag C f = some (l, s)) : f = C.flag l s := by
+  unfold decodeFlag at h
+  split at h
+  · simp at h; obtain ⟨rfl, rfl⟩ := h; assumption
+  · split at h
+    · simp at h; obtain ⟨rfl, rfl⟩ := h; assumption
+    · split at h
+      · simp at h; obtain ⟨rfl, rfl⟩ := h; assumption
+      · split at h
+        · simp at h; obtain ⟨rfl, rfl⟩ := h; assumption
+        · simp at h
+
+theorem takeRec_sound {d t : List α} {c : Cmd α} (h : takeRec C d = some (c, t)) : d = encodeCmd C c ++ t := by
+  unfold takeRec at h
+  split at h
+  · rename_i k x y k' t0
+    split at h
+    · rename_i hk
+      split at h
+      · rename_i hk'; simp at h; obtain ⟨rfl, rfl⟩ := h; simp [encodeCmd, hk, hk']
+      · simp at h
+    · split at h
+      · rename_i hk
+        split at h
+        · rename_i hk'; simp at h; obtain ⟨rfl, rfl⟩ := h; simp [encodeCmd, hk, hk']
+        · simp at h
+      · split at h
+        · rename_i hk
+          split at h
+          · rename_i hk'; simp at h; obtain ⟨rfl, rfl⟩ := h; simp [encodeCmd, hk, hk']
+          · simp at h
+        · split at h
+          · rename_i hk
+            split at h
+            · rename_i y2 k'' t'
+              split at h
+              · rename_i hk'; simp at h; obtain ⟨rfl, rfl⟩ := h; simp [encodeCmd, hk, hk']
+              · simp at h
+            · simp at h
+          · split at h
+            · rename_i hk
+              split at h
+              · rename_i y2 x3 y3 k'' t'
+                split at h
+                · rename_i hk'; simp at h; obtain ⟨rfl, rfl⟩ := h; simp [encodeCmd, hk, hk']
+                · simp at h
+              · simp at h
+            · split at h
+              · rename_i hk
+                split at h
+                · rename_i f x3 y3 k'' t'
+                  split at h
+                  · rename_i hk'
+                    cases hf : decodeFlag C f with
+                    | none => simp [hf] at h
+                    | some ls =>
+                      obtain ⟨l, s⟩ := ls
+                      simp [hf] at h; obtain ⟨rfl, rfl⟩ := h
+                      have := decodeFlag_sound C hf
+                      simp [encodeCmd, hk, hk', this]
+                  · simp at h
+                · simp at h
+              · simp at h
+  · simp at h
+
+theorem decodeN_sound : ∀ (n : Nat) (d : List α) (l : List (Cmd α)), decodeN C n d = some l →
+    l.flatMap (encodeCmd C) = d := by
+  intro n
+  induction n with
+  | zero =>
+    intro d l h
+    cases d with
+    | nil => simp [decodeN] at h; subst h; rfl
+    | cons x t => simp [decodeN] at h
+  | succ n ih =>
+    intro d l h
+    cases d with
+    | nil => simp [decodeN] at h; subst h; rfl
+    | cons x t =>
+      rw [decodeN_succ_cons] at h
+      cases hr : takeRec C (x :: t) with
+      | none => simp [hr] at h
+      | some ct =>
+        obtain ⟨c, t'⟩ := ct
+        simp only [hr] at h
+        cases hn : decodeN C n t' with
+        | none => simp [hn] at h
+        | some l' =>
+          simp only [hn, Option.map_some, Option.some.injEq] at h
+          subst h
+          rw [List.flatMap_cons, ih _ _ hn]
+          exact (takeRec_sound C hr).symm
+
+/-- decoding is sound: an array that decodes IS the encoding of the records it decodes into -/
+theorem decode_sound {d : List α} {recs : List (Cmd α)} (h : decode C d = some recs) :
+    encode C recs.reverse = d := by
+  rw [encode_eq_flatMap, List.reverse_reverse]
+  exact decodeN_sound C _ _ _ h
+
 end Canvas.Path
